@@ -70,6 +70,9 @@ def cases(draw, tier="quick"):
     P["ops"] = [ops[j] for j in sorted(range(len(ops)), key=lambda j: perm[j])]
     P["half"] = draw(st.integers(0, 7)) == 0
     P["kills"] = draw(st.sampled_from([0, 0, 0, 1, 2]))
+    P["w_kill"] = draw(st.sampled_from([1, 4]))
+    # openers that write (and maybe close) synchronously inside connectionMade()
+    P["eager"] = draw(st.sampled_from([None, None, None, "write", "close"]))
     P["max_reconnects"] = 8
     n = draw(st.integers(30, 300))
     P["tape"] = draw(st.binary(min_size=n, max_size=n))
@@ -146,7 +149,9 @@ def check(case, P, final):
                 if getattr(snd, "late_write_accepted", False):
                     return ("once", "write() after a local loseConnection() was accepted silently",
                             "write-after-close-accepted")
-                if "lost" in kinds and snd.closed_locally is not None and rcv.closed_locally is None and got != snd.writes:
+                # the peer's CLOSE travels behind all of its DATA, and an end that closed first keeps receiving until
+                # that CLOSE arrives: whoever closed first, connectionLost never overtakes data written before
+                if "lost" in kinds and got != snd.writes:
                     return ("order", "subchannel %r#%d %s: connectionLost arrived before data written before the "
                             "close (%d of %d)" % (name, k, d, len(got), len(snd.writes)), "lost-before-data")
                 if final:
@@ -215,7 +220,7 @@ def run_case(P):
     unexpected = any(refused(P, o[0], o[1], case) for o in case.opens)
     res.nontrivial = both_closed > 0 or unexpected or open_before_listen
     res.features = dict(exp0=P["expected"][0] is not None, exp1=P["expected"][1] is not None, unexpected=unexpected,
-                        both_closed=min(both_closed, 2), subs=len(case.opens), half=P["half"])
+                        both_closed=min(both_closed, 2), subs=len(case.opens), half=P["half"], eager=str(P.get("eager")))
     for e in case.ends:
         if isinstance(e, dilworld.HalfEnd):
             res.notes["halfcloseable_events:" + ",".join(k for k in e.kinds() if k != "data")] += 1
